@@ -1178,12 +1178,9 @@ impl ProtocolState {
             decoded_packets: &mut decoded_packets
         };
 
+        // the packets decoded in front of a malformed one are handled like those of an earlier read: what the application sees of
+        // the server's byte stream does not depend on where the reads happen to end
         let decode_result = self.decoder.decode_bytes(data, &mut decode_context);
-        if decode_result.is_err() {
-            error!("[{} ms] handle_network_event_incoming_data - decode failure", self.elapsed_time_ms);
-            self.change_state(ProtocolStateType::Halted);
-            return decode_result;
-        }
 
         for mut packet in decoded_packets {
             if let MqttPacket::Publish(publish) = &mut(*packet) {
@@ -1214,6 +1211,12 @@ impl ProtocolState {
                 self.change_state(ProtocolStateType::Halted);
                 return handler_result;
             }
+        }
+
+        if decode_result.is_err() {
+            error!("[{} ms] handle_network_event_incoming_data - decode failure", self.elapsed_time_ms);
+            self.change_state(ProtocolStateType::Halted);
+            return decode_result;
         }
 
         Ok(())
